@@ -16,7 +16,8 @@ RULE = (
     "case = (software type under test on host h0 of a two-host LAN built from a scenario dict; declared in the scenario / "
     "pre-installed / declared although pre-installed / absent; other software declared beside it; optional port listener; "
     "restart duration; node power durations) + op sequence over {start, stop, pause, resume, restart, disable, enable, fix, "
-    "scan, execute, close, install, uninstall, tick, node off, node on, payload from the peer host}. All sequences to depth "
+    "scan, execute, close, install, uninstall, tick, node off, node on, payload from the peer host, uninstall of / payload to "
+    "another application on the same (port, protocol)}. All sequences to depth "
     "3 (quick) / 4 (thorough) for three services (11 symbols: the 7 state-changing verbs, tick, payload, node off, node on) "
     "and three applications (9 symbols: execute, close, scan, install, uninstall, tick, payload, node off, node on); a sweep "
     "of every shipped type x every non-running state x listener mode followed by a payload; Hypothesis sequences of length "
@@ -29,7 +30,9 @@ ASSUMPTIONS = [
     "restart duration is set with defaults.service_restart_duration for software declared in the scenario and by the "
     "public field Service.restart_duration for pre-installed software; install duration is the shipped default",
     "peer payloads are one well-formed message of the type the software is written to receive (vlib/c13_payloads.py); "
-    "non-delivery is always accepted",
+    "delivery is REQUIRED only where the dispatch is unambiguous: the addressed software is RUNNING, the only RUNNING software "
+    "on its (port, protocol), its node ON with enabled interfaces, get_open_ports() lists the port, the peer reports the frame "
+    "sent, and the type's payload is one frame to its own port (not nmap / arp / C2); everywhere else non-delivery is accepted",
     "node power transitions themselves belong to C12: the power ops drive the node to OFF / ON and only the software "
     "consequences are asserted; timing assertions are suspended for a transition interrupted by a power event",
     "fix is required to succeed only when health is GOOD or COMPROMISED; execute of a RUNNING application may have any status; "
@@ -54,6 +57,14 @@ REDECLARABLE = ["dns-client", "ntp-client", "ftp-client", "web-browser", "nmap"]
 LISTEN_PORT = {"dns-client": 53, "dns-server": 53, "ntp-client": 123, "ntp-server": 123, "ftp-client": 21, "ftp-server": 21,
                "terminal": 22, "web-browser": 80, "web-server": 80, "database-service": 5432, "database-client": 5432,
                "dos-bot": 5432, "arp": 219}
+
+# (D) delivery clause: types whose peer payload is a single frame to the software's own (port, protocol)
+ASSERT_DELIVERY = {"web-server", "web-browser", "dns-server", "dns-client", "ntp-server", "ntp-client", "ftp-server", "ftp-client",
+                   "database-service", "database-client", "dos-bot", "terminal", "icmp"}
+# an APPLICATION on the same (port, protocol) as the key (uninstall_other / payload_other ops); None in the second slot = it is
+# pre-installed, otherwise it is declared after the target in the scenario
+PARTNER = {"web-server": "web-browser", "database-service": "database-client", "database-client": "dos-bot",
+           "dos-bot": "database-client"}
 
 SERVICE_VERBS = ["start", "stop", "pause", "resume", "restart", "disable", "enable", "fix", "scan"]
 APP_VERBS = ["execute", "close", "fix", "scan"]
@@ -117,6 +128,10 @@ def build_cfg(case: Dict) -> Dict:
         if t == typ or {typ, t} == {"c2-server", "c2-beacon"}:
             continue  # C2 server and beacon on ONE host answer each other's keep-alives without end; not a lifecycle question
         (services if k == "service" else apps).append({"type": t})
+    for o in case.get("ops", []):  # software named by uninstall_other / payload_other is declared after the target
+        if o[0] in ("uninstall_other", "payload_other") and o[1] not in SYSTEM_APPS and o[1] != typ \
+                and not any(a["type"] == o[1] for a in apps):
+            apps.append({"type": o[1]})
     lis = case.get("listener")
     if lis in (True, "c2") and typ not in ("c2-server", "c2-beacon") and not any(a["type"] == "c2-server" for a in apps):
         apps.append({"type": "c2-server"})  # a shipped application that listens on HTTP, FTP and DNS besides its own port
@@ -142,13 +157,15 @@ class RecvSpy:
         self.calls: List[tuple] = []
         self._own = cls.__dict__.get("receive")
         base = cls.receive
-        calls = self.calls
+        spy = self
 
         def receive(self_, *a, **k):
             pre = self_.operating_state.name
             pre_state = norm_state(self_.describe_state())
+            entry = [self_, pre, pre_state, None]
+            spy.calls.append(entry)  # logged at entry: a raising receive() still counts as called
             r = base(self_, *a, **k)
-            calls.append((self_, pre, pre_state, r))
+            entry[3] = r
             return r
 
         setattr(cls, "receive", receive)
@@ -158,6 +175,20 @@ class RecvSpy:
             delattr(self.cls, "receive")
         else:
             setattr(self.cls, "receive", self._own)
+
+
+class MultiSpy:
+    """RecvSpy over several classes sharing one call log."""
+
+    def __init__(self, classes):
+        self.spies = [RecvSpy(c) for c in classes]
+        self.calls = self.spies[0].calls
+        for sp in self.spies[1:]:
+            sp.calls = self.calls
+
+    def close(self):
+        for sp in reversed(self.spies):
+            sp.close()
 
 
 def sw_class(kind: str, typ: str):
@@ -377,8 +408,13 @@ def run_case(case: Dict) -> CaseResult:
     node = sim.network.get_node_by_hostname(H0)
     peer = sim.network.get_node_by_hostname(H1)
     sm = node.software_manager
-    cls = sw_class(kind, typ)
-    spy = RecvSpy(cls)
+    classes = [sw_class(kind, typ)]
+    for o in ops:
+        if o[0] in ("uninstall_other", "payload_other"):
+            c = sw_class("application", o[1])
+            if c not in classes:
+                classes.append(c)
+    spy = MultiSpy(classes)
     try:
         _run(case, res, game, sim, node, peer, sm, spy, kind, typ, ops, base)
     finally:
@@ -418,6 +454,7 @@ def _run(case, res, game, sim, node, peer, sm, spy, kind, typ, ops, base):
     was_running_at_off = False
     nontrivial = False
     seen_uninstall = False
+    route_loss: Dict[tuple, str] = {}  # (port, protocol) -> which kind of uninstall last happened on that key (signature bucket)
     n_refused = n_accepted = n_deliv_running = n_deliv_stopped = 0
 
     def node_on():
@@ -530,36 +567,81 @@ def _run(case, res, game, sim, node, peer, sm, spy, kind, typ, ops, base):
                 pending = None
             m_state = obs
 
-        elif k == "payload":
+        elif k in ("payload", "payload_other"):
+            addr = typ if k == "payload" else op[1]
             spy.calls.clear()
-            if typ == "nmap" and cur() is None and "C13-nmap-uninstalled-crash" in case.get("excl", ()):
+            if addr == "nmap" and sm.software.get(addr) is None and "C13-nmap-uninstalled-crash" in case.get("excl", ()):
                 res.label("excluded:C13-nmap-uninstalled-crash")  # known crash would end the case here
                 continue
+            x = sm.software.get(addr)
+            # (D) is the addressed software in a position where the dispatch is unambiguous? (decided BEFORE sending)
+            must_reach = None
+            if (x is not None and addr in ASSERT_DELIVERY and x.operating_state.name == "RUNNING" and node_on()
+                    and all(n.enabled for n in node.network_interface.values())
+                    and (addr == "icmp" or x.port in sm.get_open_ports())
+                    and not any(v is not x and v.operating_state.name == "RUNNING" and (v.port, v.protocol) == (x.port, x.protocol)
+                                for v in sm.software.values())):
+                mapped = sm.port_protocol_mapping.get((x.port, x.protocol))
+                if mapped is x:
+                    must_reach = "routed"
+                elif mapped is None:
+                    must_reach = "no-route:" + route_loss.get((x.port, x.protocol), "never-routed")
+                elif not any(mapped is v for v in sm.software.values()):
+                    must_reach = "route-to-uninstalled"
+                else:
+                    must_reach = "route-to-non-running"
             try:
-                sent = payloads.send(peer, IP0, typ)
+                sent = payloads.send(peer, IP0, addr)
             except Exception as e:
                 res.violate(f"raise:payload:{exc_sig(e)}", f"{when}: {exc_msg(e)}")
                 return
             if sent is None:
                 res.label("payload-not-applicable")
                 continue
+            reached_x = False
             for inst, pre, pre_state, ret in list(spy.calls):
                 if inst.software_manager is not sm:
                     continue  # the peer's own instance
+                if inst is x:
+                    reached_x = True
                 if pre == "RUNNING" and node_on():
                     n_deliv_running += 1
                     continue
                 n_deliv_stopped += 1
                 where = pre if node_on() else "node-not-on"
                 if ret:
-                    res.violate(f"payload-handled-while-not-running:{typ}",
-                                f"{when}: receive() of the {where} {typ} was called and returned {ret!r}")
+                    res.violate(f"payload-handled-while-not-running:{inst.name}",
+                                f"{when}: receive() of the {where} {inst.name} was called and returned {ret!r}")
                 elif norm_state(inst.describe_state()) != pre_state:
-                    res.violate(f"payload-changed-state-while-not-running:{typ}",
-                                f"{when}: receive() of the {where} {typ} returned {ret!r} but its state changed")
+                    res.violate(f"payload-changed-state-while-not-running:{inst.name}",
+                                f"{when}: receive() of the {where} {inst.name} returned {ret!r} but its state changed")
             spy.calls.clear()
+            if must_reach is not None and sent is True:
+                res.label("delivery-asserted")
+                if not reached_x:
+                    res.violate(f"running-software-not-reached:{must_reach}",
+                                f"{when}: {addr} is RUNNING on a powered-on node, the only RUNNING software on {x.port}/{x.protocol}, "
+                                f"get_open_ports() reports the port open and the peer put a well-formed frame on the wire, but its "
+                                f"receive() was never called (port_protocol_mapping entry: "
+                                f"{getattr(sm.port_protocol_mapping.get((x.port, x.protocol)), 'name', None)})")
             if state() != m_state:
                 res.violate(f"payload-changed-operating-state:{kind}:{m_state}->{state()}", when)
+                m_state = state()
+
+        elif k == "uninstall_other":
+            name = op[1]
+            o = sm.software.get(name)
+            owner = sm.port_protocol_mapping.get((o.port, o.protocol)) if o is not None else None
+            try:
+                r = sim.apply_request(form("application", name, "uninstall"))
+            except Exception as e:
+                res.violate(f"raise:uninstall:{exc_sig(e)}", f"{when}: {exc_msg(e)}")
+                return
+            if o is not None and sm.software.get(name) is None:
+                res.label("uninstalled-other")
+                route_loss[(o.port, o.protocol)] = "after-uninstall-of-route-owner" if owner is o else "after-uninstall-of-non-owner"
+            if state() != m_state:
+                res.violate(f"uninstall-of-other-software-changed-operating-state:{kind}:{m_state}->{state()}", when)
                 m_state = state()
 
         elif k in ("install", "uninstall"):
@@ -568,12 +650,17 @@ def _run(case, res, game, sim, node, peer, sm, spy, kind, typ, ops, base):
             pre = m_state
             on = node_on()
             before = norm_state(node.describe_state())
+            o_pre = cur()
+            owner_pre = sm.port_protocol_mapping.get((o_pre.port, o_pre.protocol)) if o_pre is not None else None
             try:
                 r = sim.apply_request(form(kind, typ, k))
             except Exception as e:
                 res.violate(f"raise:{k}:{exc_sig(e)}", f"{when}: {exc_msg(e)}")
                 return
             obs = state()
+            if k == "uninstall" and o_pre is not None and obs == "ABSENT":
+                route_loss[(o_pre.port, o_pre.protocol)] = ("after-uninstall-of-route-owner" if owner_pre is o_pre
+                                                            else "after-uninstall-of-non-owner")
             where = pre if on else "node-not-on"
             if not on:
                 n_refused += 1
@@ -740,8 +827,13 @@ def _run(case, res, game, sim, node, peer, sm, spy, kind, typ, ops, base):
 # generators
 
 
-def ops_strategy(kind: str, max_len: int):
+def ops_strategy(kind: str, max_len: int, typ: Optional[str] = None):
     common = [st.just(["tick"])] * 3 + [st.just(["node_off"]), st.just(["node_on"]), st.just(["payload"]), st.just(["payload"])]
+    others = [a for a in ("web-browser", "database-client", "dos-bot") if a != typ]
+    if PARTNER.get(typ) in others:  # prefer the application that shares the target's port
+        others = others + [PARTNER[typ]] * 3
+    common = common + [st.sampled_from(others).map(lambda a: ["uninstall_other", a]),
+                       st.sampled_from(others).map(lambda a: ["payload_other", a])]
     if kind == "service":
         verbs = st.sampled_from(SERVICE_VERBS).map(lambda v: ["req", v])
         return st.integers(3, max_len).flatmap(lambda n: st.lists(st.one_of(verbs, verbs, verbs, *common), min_size=n, max_size=n))
@@ -773,7 +865,7 @@ def case_strategy(draw, max_len: int = 30):
         "listener": draw(st.sampled_from([False, False, "c2", "port"])),
         "rd": draw(st.sampled_from([None, 0, 1, 2, 3])) if kind == "service" else None,
         "pd": draw(st.sampled_from([0, 0, 2])),
-        "ops": draw(ops_strategy(kind, max_len)),
+        "ops": draw(ops_strategy(kind, max_len, typ)),
     }
 
 
@@ -789,10 +881,16 @@ EXH_TARGETS = [
 ]
 
 
+def exh_alphabet(kind: str, typ: str) -> List:
+    alphabet = list(EXH_SERVICE_ALPHABET if kind == "service" else EXH_APP_ALPHABET)
+    if typ in ("web-server", "dos-bot"):  # two programs on one (port, protocol): uninstall the other one, address the other one
+        alphabet += [["uninstall_other", PARTNER[typ]], ["payload_other", PARTNER[typ]]]
+    return alphabet
+
+
 def exhaustive_cases(depth: int):
     for kind, typ, declare in EXH_TARGETS:
-        alphabet = EXH_SERVICE_ALPHABET if kind == "service" else EXH_APP_ALPHABET
-        for seq in itertools.product(alphabet, repeat=depth):
+        for seq in itertools.product(exh_alphabet(kind, typ), repeat=depth):
             yield {"kind": kind, "type": typ, "declare": declare, "extra": [], "listener": False,
                    "rd": 1 if kind == "service" else None, "pd": 0, "ops": [list(o) for o in seq]}
 
@@ -817,6 +915,42 @@ def state_sweep_cases():
                 if typ in REDECLARABLE:  # the same software declared again in the scenario file
                     yield {"kind": kind, "type": typ, "declare": True, "extra": [], "listener": False, "rd": 2 if kind == "service" else None,
                            "pd": 0, "ops": [list(o) for o in pre] + [["payload"], ["tick"], ["payload"]]}
+
+
+# two programs on one (port, protocol): (target kind, target, declare, other application)
+SHARED_PORT_PAIRS = [
+    ("service", "web-server", True, "web-browser"),        # other pre-installed = installed first, target owns the route
+    ("service", "database-service", True, "database-client"),  # other declared = installed after the target
+    ("service", "dns-server", True, "web-browser"),        # control: the other does not share the port
+    ("application", "database-client", True, "dos-bot"),
+    ("application", "dos-bot", True, "database-client"),
+    ("application", "dos-bot", False, "database-client"),   # target installed by request, i.e. after the other
+]
+
+
+def shared_port_cases():
+    """Uninstall / stop one of two programs sharing a port, then address the survivor (and the other way round)."""
+    for kind, typ, declare, other in SHARED_PORT_PAIRS:
+        leave = ["req", "stop"] if kind == "service" else ["req", "close"]
+        seqs = [
+            [["payload"], ["payload_other", other]],
+            [["uninstall_other", other], ["payload"], ["tick"], ["payload"]],
+            [["uninstall_other", other], ["node_off"], ["node_on"], ["payload"]],
+            [leave, ["payload_other", other], ["payload"]],
+            [leave, ["uninstall_other", other], ["payload"]],
+            [["payload_other", other], ["uninstall_other", other], ["payload_other", other], ["payload"]],
+        ]
+        if kind == "application":
+            seqs += [
+                [["uninstall"], ["payload_other", other], ["tick"], ["payload_other", other]],
+                [["uninstall"], ["install"], ["tick"], ["tick"], ["tick"], ["payload"], ["payload_other", other]],
+                [["uninstall"], ["install"], ["uninstall_other", other], ["tick"], ["tick"], ["tick"], ["payload"]],
+                [["install"], ["tick"], ["tick"], ["tick"], ["uninstall_other", other], ["payload"]],
+                [["install"], ["tick"], ["tick"], ["tick"], ["uninstall"], ["payload_other", other]],
+            ]
+        for ops in seqs:
+            yield {"kind": kind, "type": typ, "declare": declare, "extra": [], "listener": False,
+                   "rd": 1 if kind == "service" else None, "pd": 0, "ops": [list(o) for o in ops]}
 
 
 def interleave_cases():
@@ -870,12 +1004,14 @@ def worker(ctx: Ctx):
     enum_run(ctx, timing_cases(), run_case)
     enum_run(ctx, tag(state_sweep_cases()), run_case)
     enum_run(ctx, tag(interleave_cases()), run_case)
+    enum_run(ctx, tag(shared_port_cases()), run_case)
     enum_run(ctx, tag(exhaustive_cases(depth)), run_case)
     ctx.extra["exhaustive"] = True
     ctx.extra["exhaustive_domain"] = (
-        f"all {len(EXH_SERVICE_ALPHABET)}^{depth} sequences for each of 3 services and all {len(EXH_APP_ALPHABET)}^{depth} "
-        f"for each of 3 applications ({[t[1] for t in EXH_TARGETS]}), restart duration 1, power durations 0; "
+        "all sequences of that depth over " + ", ".join(f"{t[1]}:{len(exh_alphabet(t[0], t[1]))} symbols" for t in EXH_TARGETS)
+        + " (service alphabet 11, application alphabet 9, plus uninstall/payload of the application sharing the target's port "
+        "where there is one), restart duration 1, power durations 0; "
         f"restart-duration sweep d=0..4 for every service type"
     )
-    n = 250 if ctx.tier == "quick" else 6000
+    n = 200 if ctx.tier == "quick" else 6000
     hyp_run(ctx, case_strategy(30).map(lambda c: dict(c, excl=excl) if excl else c), run_case, n)
